@@ -40,9 +40,13 @@ Bools == {B(TRUE), B(FALSE)}
 SeqsUpTo(E, n) == UNION {[1..k -> E] : k \in 0..n}
 
 \* representations available for a slice with the given contents
-Hows(es) == IF es = <<>> THEN {"lit", "new", "nilFilter", "nilMap", "take0", "skipAll", "popLastToEmpty", "tailToEmpty"}
-            ELSE {"lit", "pushLast", "take", "skip", "popLast", "tail", "map", "append"}
-FewHows(es) == IF es = <<>> THEN {"lit", "nilFilter", "popLastToEmpty"} ELSE {"lit", "popLast"}
+\* frtEmpty (frt.Empty<[]T> ()) and dictValuesEmpty (dict.Values of an empty dict) are nil slices that do NOT come
+\* from pkg/slice: = must not depend on pkg/slice's allocation habits
+Hows(es) == IF es = <<>> THEN {"lit", "new", "nilFilter", "nilMap", "take0", "skipAll", "popLastToEmpty", "tailToEmpty",
+                               "frtEmpty", "dictValuesEmpty", "collectEmpty", "concatEmpty"}
+            ELSE {"lit", "pushLast", "take", "skip", "popLast", "tail", "map", "append", "collect", "concat"}
+               \cup (IF Len(es) = 1 THEN {"dictValues"} ELSE {})
+FewHows(es) == IF es = <<>> THEN {"lit", "nilFilter", "popLastToEmpty", "frtEmpty"} ELSE {"lit", "popLast"}
 
 Sl(et, E, n, H(_)) == UNION {{<<"sl", et, how, es>> : how \in H(es)} : es \in SeqsUpTo(E, n)}
 
@@ -61,7 +65,7 @@ Shapes ==      {<<"uni", "Shape", "Circle", <<r>>>> : r \in {I(0), I(1)}}
 Wraps == {<<"rec", "Wrap", <<i, b>>>> : i \in {I(0), I(1)}, b \in Shapes}
 PtSlices == Sl("Pt", {<<"rec", "Pt", <<I(0), I(1)>>>>, <<"rec", "Pt", <<I(1), I(1)>>>>}, 2, FewHows)
 TupSlices == Sl("tup2", {<<"tup", <<I(0), S("a")>>>>, <<"tup", <<I(1), S("a")>>>>}, 2, FewHows)
-NestedSlices == Sl("[]int", {<<"sl", "int", "lit", <<>>>>, <<"sl", "int", "nilFilter", <<>>>>,
+NestedSlices == Sl("[]int", {<<"sl", "int", "lit", <<>>>>, <<"sl", "int", "nilFilter", <<>>>>, <<"sl", "int", "frtEmpty", <<>>>>,
                              <<"sl", "int", "lit", <<I(1)>>>>, <<"sl", "int", "popLast", <<I(1)>>>>,
                              <<"sl", "int", "lit", <<I(0), I(1)>>>>}, 2, FewHows)
 WrapTups == {<<"tup", <<w, s>>>> : w \in {x \in Wraps : x[3][1] = I(0)}, s \in {S("a")}}
